@@ -238,11 +238,9 @@ def pcDelta_grouped(df, by, seq_columns, **kwargs):
     """
 
     def pcDelta_within_group(dfg):
-        index = kwargs.get("bins")
-        if isinstance(index, int):
-            index = [index]
-        if not index is None:
-            index = index[:-1]
+        bins = kwargs.get("bins")
+        # bin edges label the result; a number of bins or bins=0 (exact coincidence probability, a scalar) has none
+        index = None if bins is None or np.ndim(bins) == 0 else bins[:-1]
         return pd.Series(pcDelta(dfg[seq_columns], **kwargs), name="Delta", index=index)
 
     return df.groupby(by).apply(pcDelta_within_group)
